@@ -19,6 +19,10 @@
 //!                            reply `(common "q")|(entity "q")|(builtin "Long")|(undefined)|(shadow)`
 //!     — observed end-to-end: a synthetic JSON schema with the same declared names (each common type a record with
 //!       one marker attribute) and a probe attribute of the reference under test, loaded by `ValidatorSchema`.
+//!   `(sty collect-frag (toks …))`  reply `(ok <frag in BTreeMap order>)|(err dup-decl|dup-ns|syntax)` — `from_cedarschema_str`, first error class
+//!   `(sty to-cedar-checked <frag> (nonrec "q"…))`  reply `(toks …)|(err collision|nonrecord)` — `Fragment::to_cedarschema()`
+//!   `(sty print-frag-a <afrag>)` reply `(toks …)`; `(sty parse-frag-a (toks …))` reply `(ok (items …))|(err)` — annotations on namespaces
+//!     and declarations (`to_cedarschema` after stripping attribute annotations; the real grammar `parse_schema`)
 use crate::gen_schema as gs;
 use crate::gen_schema_text as gt;
 use crate::out::Out;
